@@ -294,6 +294,38 @@ func registryCases(add func(*Case)) {
 			}
 		}
 	}
+	// render failures in sources full of non-ASCII text (byte offsets run ahead of
+	// character counts), at the start, in the middle and on the very last line
+	for _, fill := range []string{"é", "日本語テキスト", "😀😀", "a\u0301", "\u2028"} {
+		wide := strings.Repeat(fill, 60)
+		for k, src := range []string{
+			"{namespace w}\n/** " + wide + "\n @param? x */\n{template .t}\n" + wide + "{$x.y.z}" + wide + "\n{/template}\n",
+			"{namespace w}\n// " + wide + "\n/** @param? x */\n{template .t}\n" + wide + "\n" + wide + "\n{$x.y.z}\n{/template}",
+			"{namespace w}\n/** @param? x */\n{template .t}\n{msg desc=\"" + wide + "\"}" + wide + "<b>{$x.y.z}</b>" + wide + "{/msg}{/template}",
+			"{namespace w}\n/** @param? x */\n{template .t}\n{'" + wide + "' + $x.y.z}{/template}\n/** */\n{template .u}\n" + wide + "\n{/template}\n",
+		} {
+			add(&Case{Family: "non-ascii-source", Feature: fmt.Sprintf("fill=%q,layout=%d", fill, k), Kind: "render", NoIJ: true, Entry: "w.t",
+				Files: []core.File{{Name: "w.soy", Text: src}}})
+		}
+	}
+	// malformed file layouts the compiler may accept or reject, but whose
+	// registered templates must then render without a panic: template before /
+	// without / between namespaces, namespace only, two namespaces
+	for k, src := range []string{
+		"{template .early}\nE{$ij.x}\n{/template}\n{namespace n}\n{template .late}\nL\n{/template}\n",
+		"{template .only}\nO\n{/template}\n",
+		"{namespace n}\n",
+		"{namespace n}\n{template .a}\nA\n{/template}\n{namespace m}\n{template .b}\nB{call n.a/}\n{/template}\n",
+		"{namespace n}\n{template .a}\nA\n{/template}\n{template .early}\nE\n{/template}\n",
+		"/** doc */\n{template .early}\nE\n{/template}\n{namespace n}\n",
+		"{namespace n}{namespace n}\n{template .a}\nA\n{/template}\n",
+		"{template n.full}\nF\n{/template}\n{namespace n}\n",
+	} {
+		for _, entry := range []string{".early", "n.early", ".only", "n.a", "m.b", "n.late", "n.full", ".a", "early"} {
+			add(&Case{Family: "file-layout", Feature: fmt.Sprintf("layout=%d,entry=%s", k, entry), Kind: "render", NoIJ: true, Entry: entry,
+				Files: []core.File{{Name: "f.soy", Text: src}}})
+		}
+	}
 	// the same name in one file twice
 	add(&Case{Family: "duplicate-template-names", Feature: "same-file", Kind: "render", NoIJ: true, Entry: "d.t",
 		Files: []core.File{{Name: "x.soy", Text: "{namespace d}\n{template .t}\nA\n{/template}\n" + pad + "{template .t}\nB{1/0}{[][5]}\n{/template}\n"}}})
